@@ -28,7 +28,7 @@ def run_harness(name, timeout_s=600, mem_gb=12, extra=()):
     env['CARGO_NET_OFFLINE'] = 'true'
     tdir = os.path.join(build.CACHE, 'target-kani', name)
     os.makedirs(tdir, exist_ok=True)
-    cmd = 'ulimit -v %d; exec timeout %d cargo kani --harness %s --target-dir %s %s' % (
+    cmd = 'ulimit -v %d; exec timeout %d cargo kani -Z stubbing --harness %s --target-dir %s %s' % (
         mem_gb * 1024 * 1024, timeout_s, name, tdir, ' '.join(extra))
     t0 = time.time()
     r = subprocess.run(['bash', '-c', cmd], cwd=crate, env=env, stdout=subprocess.PIPE, stderr=subprocess.STDOUT, text=True)
@@ -58,3 +58,19 @@ if __name__ == '__main__':
         print({k: v for k, v in r.items() if k != 'tail'})
         if r['tail']:
             print(r['tail'])
+
+
+def extra(harnesses, timeout_s, what):
+    """run Kani harnesses for a property check -> dict for ./check (inconclusive / violations / evidence)"""
+    res = run_many(harnesses, timeout_s=timeout_s, workers=min(8, len(harnesses)))
+    out = {'inconclusive': [], 'violations': [], 'evidence': {
+        'engine': 'Kani 0.68 / CBMC 6.11 (cadical) on the compiled code, real std except the listed kernel stub',
+        'what': what, 'stubs': ['str::find -> naive_find (equivalence decided by harness stub_find_equiv on 7 bytes)'],
+        'harnesses': [{k: v for k, v in r.items() if k != 'tail'} for r in res]}}
+    for r in res:
+        if r['status'] == 'failed':
+            out['violations'].append({'msg': 'Kani harness %s failed: %s' % (r['harness'], r['failed_checks'][:2]),
+                                      'data': {'op': 'kani', 'harness': r['harness'], 'failed_checks': r['failed_checks'], 'tail': r['tail'][-800:]}})
+        elif r['status'] != 'success':
+            out['inconclusive'].append('Kani harness %s inconclusive (timeout / out of memory / tool error, rc=%s)' % (r['harness'], r['rc']))
+    return out
